@@ -321,6 +321,10 @@ def install(ctx):
             return v.normalised()
         return NotImplemented
 
+    @M.reg('<String as Default>::default', 'String::new')
+    def string_default(ip, pc, args, dt):
+        return Str([], 0, 0)
+
     @M.reg('str::parse')
     def str_parse(ip, pc, args, dt):
         s = as_str(args[0])
@@ -418,6 +422,8 @@ def display_to_str(ip, v):
             cell = Cell(f, 'formatter')
             yield from ip.call_fn(c[0], [Ref(Loc(Cell(v, 'display-self'))), Ref(Loc(cell), True)])
             parts = cell.v.parts
+            if len(parts) == 1 and isinstance(parts[0], StrTok):
+                return parts[0]
             if any(isinstance(x, StrTok) for x in parts):
                 # opaque strings: the rendering is an injective function of the parts' tokens
                 key = 'fmt_%s_%d' % (v.name, len(parts))
@@ -473,6 +479,23 @@ def install_fmt(ctx):
             else:
                 f.parts.append(part)
         return ok(UNIT)
+
+    @M.reg('<Display>::fmt', '<Debug>::fmt')
+    def int_display_fmt(ip, pc, args, dt):
+        v = deref_all(args[0])
+        f = read_loc(args[1].loc)
+        if isinstance(v, S) and v.ty in INT_TYPES:
+            if isinstance(f, FormatterM):
+                fn = z3.Function('fmt_int', z3.IntSort(), z3.IntSort())
+                f.parts.append(StrTok(fn(v.t)))
+            return ok(UNIT)
+        if isinstance(v, (Str, StrTok)):
+            if isinstance(f, FormatterM):
+                f.parts.append(v)
+            return ok(UNIT)
+        if not isinstance(f, FormatterM):
+            return ok(UNIT)
+        return NotImplemented
 
     @M.reg('Formatter::write_str')
     def write_str(ip, pc, args, dt):
